@@ -14,6 +14,7 @@ import (
 type gen struct {
 	r    *rand.Rand
 	nval int
+	busy bool // pool plans: callers also address a key the backend refuses
 }
 
 func newGen(seed uint64) *gen {
@@ -74,7 +75,13 @@ func (g *gen) ttl(now int64, rich bool) uint32 {
 		}
 		return uint32(1 + g.n(5))
 	}
-	switch g.n(12) {
+	switch g.n(14) {
+	case 12:
+		// absolute, more than 30 days ahead (the only way to ask for that long a lifetime)
+		return uint32(now + model.ThirtyDays + 1 + int64(g.n(300*86400)))
+	case 13:
+		// absolute, around the 30-day mark
+		return uint32(now + model.ThirtyDays - 2 + int64(g.n(5)))
 	case 0, 1, 2, 3:
 		return 0
 	case 4, 5:
